@@ -118,10 +118,16 @@ class SpyDict(dict):
     del _n, _m
 
 
-def one(cfg, state_kind, draws, readonly):
+def one(cfg, state_kind, draws, readonly, shared=None):
     ctx = engine.Ctx()
     b = gen.build(cfg, ctx)
     kw = dict(b.kw)
+    if shared is not None and "projections" in kw:
+        # the caller keeps ONE list of projections and passes the same object to every call (repeated invocation in one process)
+        if "list" not in shared:
+            shared["list"] = kw["projections"]
+            shared["len0"] = len(kw["projections"])
+        kw["projections"] = shared["list"]
     x0 = b.x0.copy()
     pristine = dict(x0=x0.copy())
     if "bounds" in kw:
@@ -182,8 +188,21 @@ def run_case(case):
     case["cfg"] = cfg
     viol = res["viol"]
     runs = []
+    shared = {} if cfg.get("proj") else None
     for k in range(3):
-        run, mod = one(cfg, k, 1 + (case["i"] * 7) % 23, readonly=(k == 2 and not control))
+        run, mod = one(cfg, k, 1 + (case["i"] * 7) % 23, readonly=(k == 2 and not control), shared=shared)
+        if k == 0 and shared is not None and run.exc is None:
+            # between run 1 and run 2: a DIFFERENT call that re-uses the caller's list (other bounds). Whatever it does, the
+            # repeat of the first call afterwards must still give the first call's sequence
+            import copy
+            c2 = copy.deepcopy(cfg)
+            x0c = np.array(c2["x0"], dtype=float)
+            w = 2.5 * float(c2["args"].get("rhobeg") or 0.1)
+            c2["lower"] = (x0c - w).tolist()
+            c2["upper"] = (x0c + w * 1.5).tolist()
+            c2["args"]["maxfun"] = min(int(c2["args"].get("maxfun") or 20), 12)
+            other, _ = one(c2, 1, 3, readonly=False, shared=shared)
+            st["interleaved_other_calls"] = st.get("interleaved_other_calls", 0) + 1
         oracles.common_stats(run, st)
         if run.timeout:
             res["inconclusive"].append("watchdog")
